@@ -189,6 +189,38 @@ def replay_point(chk, e, n):
     return ok
 
 
+def many_sites(chk, rng, tier):
+    """Beyond the exhaustive bound in the number of SITES: 13 visible units (8192 basis states, more than any
+    block size an implementation would cut a space into), a lattice point with small parameters; the
+    normalisation and sampled rows against the defining sums evaluated with 50 digits."""
+    for rep in range(1 if tier == "quick" else 4):
+        nv, nh, B = 13, rng.randint(1, 2), rng.choice([2, 3])
+        pt = dict(nv=nv, nh=nh, B=B, am=lattice.random_net(rng, nv, nh, 2), ph=lattice.random_net(rng, nv, nh, 2))
+        bm = mpmath.mpf(B)
+
+        def weight(v):
+            a = pt["am"]
+            w = bm ** sum(a["b"][i] * v[i] for i in range(nv))
+            for j in range(nh):
+                w *= 1 + bm ** (a["c"][j] + sum(a["W"][j][i] * v[i] for i in range(nv)))
+            return w
+        rows = [[(k >> (nv - 1 - i)) & 1 for i in range(nv)] for k in range(2 ** nv)]
+        ws = [weight(v) for v in rows]
+        Z = mpmath.fsum(ws)
+        det = dict(point=pt, many_sites=True)
+        for key, st in (("positive", lattice.positive_state(pt)), ("complex", lattice.complex_state(pt))):
+            sp = st.generate_hilbert_space(nv)
+            cmp(chk, key, "normalization[13 sites]", st.normalization(sp).item(), Z, det, rel=1e-9)
+            prob = st.probability(sp)
+            cmp(chk, key, "probability[13 sites]:sum", prob.sum().item(), Z, det, rel=1e-9)
+            for k in (0, 4095, 4096, 4097, 2 ** nv - 1, rng.randrange(2 ** nv)):
+                cmp(chk, key, "probability[13 sites]", prob[k].item(), ws[k], dict(det, state=k), rel=1e-9)
+            psi = st.psi(sp)
+            k = rng.randrange(4097, 2 ** nv)
+            cmp(chk, key, "born[13 sites]", psi[0, k].item() ** 2 + psi[1, k].item() ** 2, ws[k], dict(det, state=k), rel=1e-9)
+        chk.nontriv(("many-sites", rep))
+
+
 def run(tier, seed):
     chk = common.Check(PID, tier, seed)
     lattice.REUSE = True          # parameter settings reached on live objects, by every route (see lattice.py)
@@ -225,6 +257,7 @@ def run(tier, seed):
     e["pam"] = [dict(r, ms=[m - e["am"]["c"][j] for j, m in enumerate(r["ms"])]) for r in e["pam"]]
     replay_point(ctl, e, 0)
     chk.control(len(ctl.violations) > 0, "expected values without the hidden bias compared equal")
+    many_sites(chk, rng, tier)
     chk.extra["points_replayed"] = len(exps)
     if not chk.violations:
         # the call forms themselves: the argument-dispatch decorators behind every 1-D / batched call form
